@@ -25,6 +25,7 @@ p!(c08_close_n2, 4, h::c08_close_step::<2, 2>());
 p!(c09_offers_n0_k1, 4, h::c09_offers_step::<0, 1, 1>());
 p!(c09_offers_n1_k1, 4, h::c09_offers_step::<1, 2, 1>());
 p!(c09_offers_n1_k2, 4, h::c09_offers_step::<1, 2, 2>());
+p!(c09_offer_one, 4, h::c09_offer_one());
 p!(c09_answer_n0, 4, h::c09_answer_step::<0, 1>());
 p!(c09_answer_n1, 4, h::c09_answer_step::<1, 2>());
 
